@@ -49,6 +49,9 @@ func main() {
 		engine.One(spec, os.Args[3], sec, engine.ParseVec(os.Args[5]), os.Args[6])
 	case "replay":
 		os.Exit(replay(os.Args[2]))
+	case "task":
+		silence()
+		engine.TaskMain(os.Args[2], os.Args[3], os.Args[4])
 	default:
 		if !extra(os.Args[1:]) {
 			fmt.Fprintln(os.Stderr, "unknown subcommand", os.Args[1])
@@ -213,6 +216,8 @@ func replay(path string) int {
 		Section  int    `json:"section"`
 		Vec      string `json:"vec"`
 		Class    string `json:"class"`
+		Custom   string `json:"custom_task"`
+		Input    json.RawMessage `json:"task_input"`
 	}
 	if err := json.Unmarshal(b, &rf); err != nil {
 		fmt.Fprintln(os.Stderr, err)
@@ -220,6 +225,26 @@ func replay(path string) int {
 	}
 	spec := mustSpec(rf.Property)
 	silence()
+	if rf.Custom != "" {
+		fn := engine.Tasks[rf.Custom]
+		if fn == nil {
+			fmt.Fprintln(os.Stderr, "unknown task", rf.Custom)
+			return 2
+		}
+		out := fn(rf.Input)
+		ob, _ := json.MarshalIndent(out, "", " ")
+		fmt.Fprintln(realStdout, string(ob))
+		var tv engine.TaskVerdict
+		json.Unmarshal(ob, &tv)
+		for _, v := range tv.Violations {
+			if v.ClassKey() == rf.Class {
+				fmt.Fprintf(realStdout, "VIOLATION property=%s replay=%s\n", rf.Property, path)
+				return 1
+			}
+		}
+		fmt.Fprintln(realStdout, "recorded violation class does not reproduce on this tree")
+		return 0
+	}
 	c := engine.NewC(engine.ParseVec(rf.Vec), rf.Tier)
 	cs := spec.Sections[rf.Section].Gen(c)
 	res, herr := engine.RunCase(cs)
